@@ -100,7 +100,7 @@ def gen(tier, rng):
     # ------------------------------------------------------------ Limb
     lv = [0, 1, 2, 3, WMAX, WMAX - 1, 1 << 63, 0xff, 0x100, 1 << 32] + [limb_choice(rng) for _ in range(reps)]
     for v in lv:
-        for op in ['new', 'new_unwrap', 'to_nz', 'to_nz_expect', 'zeroize']:
+        for op in ['new', 'new_unwrap', 'to_nz', 'to_nz_expect', 'zeroize', 'as_ref', 'ser']:
             Y(f'c12.nz.l.{op} {hx(v)}')
         for order in ['big', 'little']:
             b = v.to_bytes(8, order)
@@ -117,6 +117,8 @@ def gen(tier, rng):
         Y(f'c12.nz.l.const {c}')
     Y('c12.nz.l.default')
     Y('c12.odd.l.default')
+    Y('c12.odd.l.as_ref')
+    Y('c12.odd.l.ser')
     for _ in range(reps * 2):
         a, b = rng.choice(lv), rng.choice(lv)
         for op in ['select', 'cassign', 'cswap']:
@@ -134,7 +136,10 @@ def gen(tier, rng):
             for op in ['nz.u.new', 'nz.u.new_unwrap', 'nz.u.to_nz', 'nz.u.to_nz_expect', 'nz.u.zeroize', 'nz.u.clone',
                        'nz.i.new', 'nz.i.to_nz', 'nz.i.abs_sign',
                        'odd.u.new', 'odd.u.to_odd', 'odd.u.to_odd_expect', 'odd.i.to_odd', 'odd.u.as_nz_ref', 'odd.u.as_ref_nz',
-                       'odd.u.zeroize', 'odd.u.clone', 'odd.u.into_boxed', 'odd.u.ref_into_boxed', 'odd.u.monty_modulus']:
+                       'odd.u.zeroize', 'odd.u.clone', 'odd.u.into_boxed', 'odd.u.ref_into_boxed', 'odd.u.monty_modulus',
+                       # coverage round: observers (AsRef<T>, AsRef<[Limb]>, Serialize + round trip through Deserialize)
+                       'nz.u.as_ref', 'nz.i.as_ref', 'odd.u.as_ref', 'odd.i.as_ref', 'odd.u.as_ref_limbs', 'odd.i.as_ref_limbs',
+                       'nz.u.ser', 'odd.u.ser']:
                 Y(f'c12.{op} {n} {h}')
             # the value written in BOTH byte orders, fed to BOTH decoders (bytes, arrays, hex, serde)
             for order in ['big', 'little']:
@@ -207,7 +212,7 @@ def gen(tier, rng):
     for k in [1, 2, 3, 4]:
         for v in vals(rng, k, reps):
             for op in ['nz.b.new', 'nz.b.clone', 'nz.b.zeroize', 'odd.b.new', 'odd.b.to_odd', 'odd.b.as_nz_ref', 'odd.b.clone',
-                       'odd.b.zeroize', 'odd.b.monty_modulus']:
+                       'odd.b.zeroize', 'odd.b.monty_modulus', 'nz.b.as_ref', 'odd.b.as_ref', 'odd.b.as_ref_limbs']:
                 Y(f'c12.{op} {k} {hx(v)}')
             for bits in {0, 1, 63, 64, 65, 64 * k - 1, 64 * k, 64 * k + 1, 64 * k + 64, 256, 257, 320, rng.randrange(0, 400)}:
                 Y(f'c12.nz.b.widen {k} {hx(v)} {bits}')
